@@ -267,6 +267,7 @@ merger_iter_next(void *v,
 
 	ubuf_clip(it->cur_key, 0);
 	ubuf_clip(it->cur_val, 0);
+	it->pending = false;
 
 	for (;;) {
 		for (;;) {
@@ -284,7 +285,7 @@ merger_iter_next(void *v,
 		if (it->finished)
 			break;
 
-		if (ubuf_size(it->cur_key) == 0) {
+		if (!it->pending) {
 			ubuf_clip(it->cur_val, 0);
 			ubuf_append(it->cur_key, e->key, e->len_key);
 			ubuf_append(it->cur_val, e->val, e->len_val);
